@@ -573,3 +573,34 @@ def judge_call_args(R, repo, f, call, expected_pos, key, where, msg, forwarded_k
         judge_expr(R, f, call.args[i], e, '%s :: arg %d' % (key, i), where, msg, vocab=set(vocab) | {n.id for x in expected_pos if x for n in ast.walk(ast.parse(x)) if isinstance(n, ast.Name)})
   if forwarded_kw:
     judge_forward(R, repo, f, call, list(forwarded_kw), key, msg)
+
+
+def reach_env(c, env, flags_func=None):
+  """Reachability from entry under an assumption `env` ({source text or name: bool}) about the values tested.
+
+  Returns (may, must): `may` = nodes reachable when only the edges contradicting env are removed (unevaluable tests keep
+  both edges); `must` = nodes reachable when, in addition, unevaluable tests are not crossed at all.  A node in `must`
+  is reached under the assumption whatever the unknown tests do: positive evidence."""
+  cut, unknown = [], []
+  for n in c.nodes:
+    if n.kind in ('if', 'while') and n.ast is not None:
+      test = n.ast
+      try:
+        v = bool_eval(_subst_flags(test, flags_func or c.func), env)
+      except Unsupported:
+        unknown += [(n, m, l) for m, l in c.succ[n] if l in ('T', 'F')]
+        continue
+      cut += [(n, m, l) for m, l in c.succ[n] if l in ('T', 'F') and (l == 'T') != v]
+  may = c.reach([c.entry], avoid_edges=cut, include_src=True)
+  must = c.reach([c.entry], avoid_edges=cut + unknown, include_src=True)
+  return may, must
+
+
+def _subst_flags(test, func):
+  """Replace single-assignment boolean flags by their defining expressions (one level)."""
+  class T(ast.NodeTransformer):
+    def visit_Name(self, node):
+      d = _flag(node, func)
+      return d if d is not None else node
+  import copy
+  return T().visit(copy.deepcopy(test))
